@@ -2,6 +2,12 @@ package sim
 
 import "testing"
 
-// enumerate runs the exhaustive parts of a property's check (C10 single/pair faults, C09 single-edit
-// sweep). It returns true when the property has no random exploration part after it.
-func enumerate(t *testing.T, c *collector) bool { return false }
+// enumerate runs the exhaustive part of a property's check, if it has one. It returns true when the worker is done
+// (a violation or a harness error was recorded); false lets the seeded random exploration continue.
+func enumerate(t *testing.T, c *collector) bool {
+	switch *fProp {
+	case "C10":
+		return enumerateC10(t, c, *fWorkers)
+	}
+	return false
+}
